@@ -113,6 +113,12 @@ Definition is_eq (o : binop) : bool := match o with BGleich | BUngleich => true 
 Definition is_logic (o : binop) : bool := match o with BUnd | BOder => true | _ => false end.
 Definition is_index (t : ty) : bool := match t with TZahl | TByte => true | _ => false end.
 
+Definition is_slice1 (o : binop) : bool := match o with BAb | BBis => true | _ => false end.
+(* verkettet builds a list unless it joins Text / Buchstabe operands one of which is a Text *)
+Definition concat_is_list (a b : ty) : bool := is_listb a || is_listb b || negb (is_text a || is_text b).
+(* what a for-each loop over a value of type te hands to a loop variable of type t *)
+Definition iter_ok (te t : ty) : Prop := te = TList t \/ (te = TText /\ t = TChar).
+
 Inductive un_ok : unop -> ty -> ty -> Prop :=
 | U_not : un_ok UNot TBool TBool
 | U_neg_zahl : un_ok UNeg TZahl TZahl
@@ -134,7 +140,10 @@ Inductive bin_ok : binop -> ty -> ty -> ty -> Prop :=
 | B_eq : forall o a, is_eq o = true -> bin_ok o a a TBool
 | B_logic : forall o, is_logic o = true -> bin_ok o TBool TBool TBool
 | B_index_list : forall t i, is_index i = true -> bin_ok BStelle (TList t) i t
-| B_index_text : forall i, is_index i = true -> bin_ok BStelle TText i TChar.
+| B_index_text : forall i, is_index i = true -> bin_ok BStelle TText i TChar
+| B_concat_text : forall a b, textish a = true -> textish b = true -> (a = TText \/ b = TText) -> bin_ok BVerkettet a b TText
+| B_concat_list : forall a b, lelem a = lelem b -> concat_is_list a b = true -> bin_ok BVerkettet a b (TList (lelem a))
+| B_slice : forall o a i, is_slice1 o = true -> seqlike a = true -> is_index i = true -> bin_ok o a i a.
 
 Inductive cast_ok : ty -> ty -> Prop :=
 | C_list : forall t, cast_ok t (TList t)                             (* one-element list *)
@@ -161,6 +170,10 @@ Inductive has_type (M : imod) (F : fenv) (G : env) : expr -> ty -> Prop :=
 | T_field : forall f e s t, has_type M F G e (TStruct s) -> field_of M s f = Some (true, t) ->
             has_type M F G (EField f e) t
 | T_call : forall f a ps r, assoc f F = Some (ps, Some r) -> args_ok M F G a ps -> has_type M F G (ECall f a) r
+| T_slice : forall l i j a ti tj, has_type M F G l a -> has_type M F G i ti -> has_type M F G j tj ->
+            seqlike a = true -> is_index ti = true -> is_index tj = true -> has_type M F G (ESlice l i j) a
+| T_list : forall e a t, has_type M F G e t -> is_listb t = false ->       (* since 030fcac the elements are no lists *)
+           args_ok M F G a (repeat (t, false) (alen a)) -> has_type M F G (EList e a) (TList t)
 with args_ok (M : imod) (F : fenv) (G : env) : args -> list (ty * bool) -> Prop :=
 | A_nil : args_ok M F G ANil []
 | A_val : forall e a t ps, has_type M F G e t -> args_ok M F G a ps -> args_ok M F G (ACons e a) ((t, false) :: ps)
@@ -179,6 +192,12 @@ Inductive stmt_ok (M : imod) (F : fenv) : env -> nat -> retctx -> stmt -> env ->
     in_top G x = false -> stmt_ok M F G d r (SConst Die x l) (bind G x (BConst (lit_ty l)))
 | S_assign : forall G d r x e t t0,
     lookup G x = Some (BVar t) -> has_type M F G e t0 -> assignable t0 t -> stmt_ok M F G d r (SAssign x e) G
+| S_assign_idx : forall G d r x i e tx ti t0,
+    lookup G x = Some (BVar tx) -> seqlike tx = true -> has_type M F G i ti -> is_index ti = true ->
+    has_type M F G e t0 -> assignable t0 (selem tx) -> stmt_ok M F G d r (SAssignIdx x i e) G
+| S_assign_field : forall G d r f x e s tf t0,
+    lookup G x = Some (BVar (TStruct s)) -> field_of M s f = Some (true, tf) ->
+    has_type M F G e t0 -> assignable t0 tf -> stmt_ok M F G d r (SAssignField f x e) G
 | S_if : forall G d r c th el G1 G2,
     has_type M F G c TBool -> block_ok M F (push G) d r th G1 -> block_ok M F (push G) d r el G2 ->
     stmt_ok M F G d r (SIf c th el) G
@@ -191,6 +210,13 @@ Inductive stmt_ok (M : imod) (F : fenv) : env -> nat -> retctx -> stmt -> env ->
     opt_numeric M F G step ->
     block_ok M F (bind (push G) x (BVar t)) (S d) r b G1 ->
     stmt_ok M F G d r (SFor a t x from to step b) G
+| S_foreach : forall G d r a t x e b te G1,
+    ty_ok G t = true -> gender M t = Some a -> has_type M F G e te -> iter_ok te t ->
+    block_ok M F (bind (push G) x (BVar t)) (S d) r b G1 -> stmt_ok M F G d r (SForEach a t x e b) G
+| S_repeat : forall G d r b n tn G1,
+    block_ok M F (push G) (S d) r b G1 -> has_type M F G n tn -> is_index tn = true -> stmt_ok M F G d r (SRepeat b n) G
+| S_dowhile : forall G d r b c G1,
+    block_ok M F (push G) (S d) r b G1 -> has_type M F G c TBool -> stmt_ok M F G d r (SDoWhile b c) G
 | S_break : forall G d r, stmt_ok M F G (S d) r SBreak G
 | S_continue : forall G d r, stmt_ok M F G (S d) r SContinue G
 | S_return_val : forall G d e t, has_type M F G e t -> stmt_ok M F G d (RFun (Some t)) (SReturn (Some e)) G
@@ -289,6 +315,10 @@ Definition bin_res (o : binop) (a b : ty) : option ty :=
   | BStelle => if is_index b then
                  match a with TList t => Some t | TText => Some TChar | _ => None end
                else None
+  | BVerkettet => if concat_is_list a b
+                  then (if ty_eqb (lelem a) (lelem b) then Some (TList (lelem a)) else None)
+                  else (if textish a && textish b then Some TText else None)
+  | BAb | BBis => if seqlike a && is_index b then Some a else None
   end.
 
 Definition cast_okb (s t : ty) : bool :=
@@ -323,6 +353,14 @@ Fixpoint type_of (M : imod) (F : fenv) (G : env) (e : expr) : option ty :=
                  | Some (ps, Some r) => if args_chk M F G a ps then Some r else None
                  | _ => None
                  end
+  | ESlice l i j => match type_of M F G l, type_of M F G i, type_of M F G j with
+                    | Some a, Some ti, Some tj => if seqlike a && is_index ti && is_index tj then Some a else None
+                    | _, _, _ => None
+                    end
+  | EList e a => match type_of M F G e with
+                 | Some t => if negb (is_listb t) && args_chk M F G a (repeat (t, false) (alen a)) then Some (TList t) else None
+                 | None => None
+                 end
   end
 with args_chk (M : imod) (F : fenv) (G : env) (a : args) (ps : list (ty * bool)) : bool :=
   match a, ps with
@@ -346,6 +384,12 @@ Definition numericb_expr (M : imod) (F : fenv) (G : env) (e : expr) : bool :=
 Definition assign_chk (M : imod) (F : fenv) (G : env) (e : expr) (t : ty) : bool :=
   match type_of M F G e with Some t0 => assignableb t0 t | None => false end.
 
+Definition indexb_expr (M : imod) (F : fenv) (G : env) (e : expr) : bool :=
+  match type_of M F G e with Some t => is_index t | None => false end.
+
+Definition iter_okb (te t : ty) : bool :=
+  match te with TList el => ty_eqb el t | TText => ty_eqb t TChar | _ => false end.
+
 Definition genderb (M : imod) (t : ty) (a : article) : bool :=
   match gender M t with Some g => article_eqb g a | None => false end.
 
@@ -358,6 +402,20 @@ Fixpoint stmt_chk (M : imod) (F : fenv) (G : env) (d : nat) (r : retctx) (s : st
   | SAssign x e =>
       match lookup G x with
       | Some (BVar t) => if assign_chk M F G e t then Some G else None
+      | _ => None
+      end
+  | SAssignIdx x i e =>
+      match lookup G x with
+      | Some (BVar tx) => if seqlike tx && indexb_expr M F G i && assign_chk M F G e (selem tx) then Some G else None
+      | _ => None
+      end
+  | SAssignField f x e =>
+      match lookup G x with
+      | Some (BVar (TStruct s)) =>
+          match field_of M s f with
+          | Some (true, tf) => if assign_chk M F G e tf then Some G else None
+          | _ => None
+          end
       | _ => None
       end
   | SIf c th el =>
@@ -376,6 +434,20 @@ Fixpoint stmt_chk (M : imod) (F : fenv) (G : env) (d : nat) (r : retctx) (s : st
          match step with None => true | Some e => numericb_expr M F G e end
       then match block_chk M F (bind (push G) x (BVar t)) (S d) r b with Some _ => Some G | None => None end
       else None
+  | SForEach a t x e b =>
+      if ty_ok G t && genderb M t a && match type_of M F G e with Some te => iter_okb te t | None => false end
+      then match block_chk M F (bind (push G) x (BVar t)) (S d) r b with Some _ => Some G | None => None end
+      else None
+  | SRepeat b n =>
+      match block_chk M F (push G) (S d) r b with
+      | Some _ => if indexb_expr M F G n then Some G else None
+      | None => None
+      end
+  | SDoWhile b c =>
+      match block_chk M F (push G) (S d) r b with
+      | Some _ => if has_typeb M F G c TBool then Some G else None
+      | None => None
+      end
   | SBreak | SContinue => match d with O => None | S _ => Some G end
   | SReturn (Some e) =>
       match r with
